@@ -559,7 +559,15 @@ func inlineOneCall(module *Module, caller *Function, call StmtCall, callee *Func
 	// synthetic loop and replace each return with store+break. This mirrors
 	// LLVM AlwaysInliner's wrap pattern (DxilLinker.cpp:1248).
 	hasEarly := blockHasEarlyReturn(inlinedBody)
-	inlinedBody = rewriteReturnsForInline(inlinedBody, retSlot, caller.Expressions, hasEarly)
+	// A return nested inside one of the callee's own loops or switches cannot
+	// reach the synthetic loop with a single break: it sets a "returned" flag,
+	// and the flag is tested after every enclosing loop/switch.
+	var flag *inlineReturnFlag
+	if hasEarly && blockHasReturnInBreakScope(inlinedBody, false) {
+		flag = newInlineReturnFlag(module, caller, callee.Name)
+		prefixStmts = append(prefixStmts, Statement{Kind: StmtStore{Pointer: flag.ptr, Value: flag.falseLit}})
+	}
+	inlinedBody = rewriteReturnsForInline(inlinedBody, retSlot, caller, hasEarly, flag)
 	if hasEarly {
 		// Wrap in loop { <body> } so break statements exit to after the call.
 		inlinedBody = Block{Statement{Kind: StmtLoop{
@@ -790,7 +798,8 @@ func blockContainsReturn(block Block) bool {
 // replaced with store-to-slot + break (the caller wraps in a loop). When
 // wrapInLoop is false, returns are simply replaced with store-to-slot (tail
 // return only, Phase 1 behavior).
-func rewriteReturnsForInline(block Block, retSlot *uint32, exprArena []Expression, wrapInLoop bool) Block {
+func rewriteReturnsForInline(block Block, retSlot *uint32, caller *Function, wrapInLoop bool, flag *inlineReturnFlag) Block {
+	exprArena := caller.Expressions
 	// We need to know the index of an ExprLocalVariable pointing to the
 	// return slot; allocate one on first use and cache the handle.
 	var slotPtrHandle ExpressionHandle
@@ -814,43 +823,138 @@ func rewriteReturnsForInline(block Block, retSlot *uint32, exprArena []Expressio
 		return slotPtrHandle
 	}
 
-	var walk func(b Block) Block
-	walk = func(b Block) Block {
+	// returnedCheck is appended after a callee loop/switch that contains a
+	// return: if the flag is set, leave the next enclosing construct too.
+	returnedCheck := func() []Statement {
+		load := flag.newLoad(caller)
+		return []Statement{
+			{Kind: StmtEmit{Range: Range{Start: load, End: load + 1}}},
+			{Kind: StmtIf{Condition: load, Accept: Block{{Kind: StmtBreak{}}}, Reject: Block{}}},
+		}
+	}
+
+	// inBreakScope: b is nested in a loop or switch of the callee, so a break
+	// leaves that construct rather than the synthetic wrapper loop.
+	var walk func(b Block, inBreakScope bool) Block
+	walk = func(b Block, inBreakScope bool) Block {
 		out := make(Block, 0, len(b))
 		for i := range b {
 			switch sk := b[i].Kind.(type) {
 			case StmtReturn:
-				if retSlot == nil || sk.Value == nil {
-					// Void return or no-value return.
-					if wrapInLoop {
-						out = append(out, Statement{Kind: StmtBreak{}})
-					}
-					continue
+				if retSlot != nil && sk.Value != nil {
+					ptr := getSlotPtr()
+					out = append(out, Statement{Kind: StmtStore{Pointer: ptr, Value: *sk.Value}})
 				}
-				ptr := getSlotPtr()
-				out = append(out, Statement{Kind: StmtStore{Pointer: ptr, Value: *sk.Value}})
 				if wrapInLoop {
+					if inBreakScope && flag != nil {
+						out = append(out, Statement{Kind: StmtStore{Pointer: flag.ptr, Value: flag.trueLit}})
+					}
 					out = append(out, Statement{Kind: StmtBreak{}})
 				}
 			case StmtBlock:
-				out = append(out, Statement{Kind: StmtBlock{Block: walk(sk.Block)}})
+				out = append(out, Statement{Kind: StmtBlock{Block: walk(sk.Block, inBreakScope)}})
 			case StmtIf:
-				out = append(out, Statement{Kind: StmtIf{Condition: sk.Condition, Accept: walk(sk.Accept), Reject: walk(sk.Reject)}})
+				out = append(out, Statement{Kind: StmtIf{Condition: sk.Condition, Accept: walk(sk.Accept, inBreakScope), Reject: walk(sk.Reject, inBreakScope)}})
 			case StmtLoop:
-				out = append(out, Statement{Kind: StmtLoop{Body: walk(sk.Body), Continuing: walk(sk.Continuing), BreakIf: sk.BreakIf}})
+				hasRet := blockContainsReturn(sk.Body) || blockContainsReturn(sk.Continuing)
+				out = append(out, Statement{Kind: StmtLoop{Body: walk(sk.Body, true), Continuing: walk(sk.Continuing, true), BreakIf: sk.BreakIf}})
+				if hasRet && wrapInLoop && flag != nil {
+					out = append(out, returnedCheck()...)
+				}
 			case StmtSwitch:
+				hasRet := false
 				cases := make([]SwitchCase, len(sk.Cases))
 				for j := range sk.Cases {
-					cases[j] = SwitchCase{Value: sk.Cases[j].Value, Body: walk(sk.Cases[j].Body), FallThrough: sk.Cases[j].FallThrough}
+					hasRet = hasRet || blockContainsReturn(sk.Cases[j].Body)
+					cases[j] = SwitchCase{Value: sk.Cases[j].Value, Body: walk(sk.Cases[j].Body, true), FallThrough: sk.Cases[j].FallThrough}
 				}
 				out = append(out, Statement{Kind: StmtSwitch{Selector: sk.Selector, Cases: cases}})
+				if hasRet && wrapInLoop && flag != nil {
+					out = append(out, returnedCheck()...)
+				}
 			default:
 				out = append(out, b[i])
 			}
 		}
 		return out
 	}
-	return walk(block)
+	return walk(block, false)
+}
+
+// blockHasReturnInBreakScope reports whether a StmtReturn sits inside a loop
+// or switch of the block (where a break would not leave the block).
+func blockHasReturnInBreakScope(block Block, inBreakScope bool) bool {
+	for i := range block {
+		switch sk := block[i].Kind.(type) {
+		case StmtReturn:
+			if inBreakScope {
+				return true
+			}
+		case StmtBlock:
+			if blockHasReturnInBreakScope(sk.Block, inBreakScope) {
+				return true
+			}
+		case StmtIf:
+			if blockHasReturnInBreakScope(sk.Accept, inBreakScope) || blockHasReturnInBreakScope(sk.Reject, inBreakScope) {
+				return true
+			}
+		case StmtLoop:
+			if blockHasReturnInBreakScope(sk.Body, true) || blockHasReturnInBreakScope(sk.Continuing, true) {
+				return true
+			}
+		case StmtSwitch:
+			for j := range sk.Cases {
+				if blockHasReturnInBreakScope(sk.Cases[j].Body, true) {
+					return true
+				}
+			}
+		}
+	}
+	return false
+}
+
+// inlineReturnFlag is the caller-side bool local that records "the inlined
+// callee has returned" for returns nested in the callee's loops/switches.
+type inlineReturnFlag struct {
+	local    uint32
+	ptr      ExpressionHandle
+	trueLit  ExpressionHandle
+	falseLit ExpressionHandle
+}
+
+func newInlineReturnFlag(module *Module, caller *Function, calleeName string) *inlineReturnFlag {
+	boolScalar := ScalarType{Kind: ScalarBool, Width: 1}
+	boolType := TypeHandle(len(module.Types))
+	for i := range module.Types {
+		if st, ok := module.Types[i].Inner.(ScalarType); ok && st == boolScalar {
+			boolType = TypeHandle(i)
+			break
+		}
+	}
+	if int(boolType) == len(module.Types) {
+		module.Types = append(module.Types, Type{Inner: boolScalar})
+	}
+	f := &inlineReturnFlag{local: uint32(len(caller.LocalVars))}
+	caller.LocalVars = append(caller.LocalVars, LocalVariable{Name: "_inline_returned_" + calleeName, Type: boolType})
+	add := func(kind ExpressionKind, ty TypeResolution) ExpressionHandle {
+		h := ExpressionHandle(len(caller.Expressions))
+		caller.Expressions = append(caller.Expressions, Expression{Kind: kind})
+		caller.ExpressionTypes = append(caller.ExpressionTypes, ty)
+		return h
+	}
+	f.ptr = add(ExprLocalVariable{Variable: f.local}, TypeResolution{Value: PointerType{Base: boolType, Space: SpaceFunction}})
+	f.trueLit = add(Literal{Value: LiteralBool(true)}, TypeResolution{Value: boolScalar})
+	f.falseLit = add(Literal{Value: LiteralBool(false)}, TypeResolution{Value: boolScalar})
+	return f
+}
+
+// newLoad appends a fresh load of the flag (one per test site, so that every
+// site reads the current value).
+func (f *inlineReturnFlag) newLoad(caller *Function) ExpressionHandle {
+	h := ExpressionHandle(len(caller.Expressions))
+	caller.Expressions = append(caller.Expressions, Expression{Kind: ExprLoad{Pointer: f.ptr}})
+	caller.ExpressionTypes = append(caller.ExpressionTypes, TypeResolution{Value: ScalarType{Kind: ScalarBool, Width: 1}})
+	return h
 }
 
 // shouldAliasArgType reports whether a function argument of this type should
